@@ -337,6 +337,13 @@ def hint_scripts(rng, sc):
     q = ["pvalue %d %s" % (pid, calcore.hx(f)) for pid, f in vq]
     out.append(("queried above the band first", "\n".join(base[:i] + q + base[i:]) + "\n"))
     out.append(("second solve", "\n".join(base[:i] + ["solve 0"] + base[i:]) + "\n"))
+    # the only item a solve carries from one frequency to the next outside its own state structure is the segment hint of
+    # each vector parameter (the solve visits the frequencies in ascending order): evaluate every table at the calibration
+    # frequencies one at a time in DESCENDING order first, and once more between two solves
+    qd = ["pvalue %d %s" % (pid, calcore.hx(f)) for f in reversed(sc.freqs) for pid, _ in vq]
+    out.append(("each frequency evaluated alone, descending, first", "\n".join(base[:i] + qd + base[i:]) + "\n"))
+    out.append(("solve, frequencies evaluated alone descending, solve again",
+                "\n".join(base[:i] + ["solve 0"] + qd + base[i:]) + "\n"))
     # an unrelated 1x1 calibration in a higher band that uses the same kit parameter, solved first
     pid = vq[0][0]
     f0 = sc.freqs[0]
@@ -814,7 +821,8 @@ def run(ctx):
                 "through the public API, or one random call sequence / one standard in all its shapes of the white-box ties; "
                 "distinct non-trivial = pairs in which both sides solved and were compared, sequences whose dumps were compared")
     files = ["Gen/LayoutGen.v", "Cal/TermsModel.v", "Cal/AddModel.v", "Cal/TermsProofs.v", "Cal/C17Proofs.v",
-             "Cal/ConnProofs.v", "Cal/OrderProofs.v", "Cal/CalAlgebra.v", "Cal/RenumberModel.v", "Cal/RenumberProofs.v",
+             "Cal/ConnProofs.v", "Cal/OrderProofs.v", "Cal/CalAlgebra.v", "Cal/RenumberModel.v", "Cal/RenumberProofs.v", "Cal/RenumberResultsModel.v", "Cal/RenumberResults.v",
+             "Cal/RenumberResultsEx.v", "Cal/RenumberE12Ue14.v",
              "Properties_C17.v"]
     # Gen/LayoutGen.v is regenerated by the translator of C01
     import layout as T5
